@@ -292,6 +292,7 @@ type FnCtx struct {
 	litOwner *FnCtx
 	inputs   []modelVar
 	lockEntry *State
+	privBoxed map[types.Object]bool // address-taken locals out of reach of unknown code (lazily computed)
 	replayInputs []replayInput
 	gotoLoops map[*ast.LabeledStmt]*ast.ForStmt
 }
